@@ -10,7 +10,7 @@ CONSTANTS
   TlsOut = {"ok", "err", "timeout", "nokeystream"}
   WriteOut = {"ok", "err"}
   LingerOut = {"byte", "eof", "timeout"}
-INVARIANTS ReportAtMostOnce ReportedWhenDone ReportNeverBlocks ChanBound ReturnNeedsReport UnreachableIffAll
+INVARIANTS TypeOK ReportAtMostOnce ReportedWhenDone ReportNeverBlocks ChanBound ReturnNeedsReport UnreachableIffAll
            RegIffNoError NilMeansWritten ClosedOnError RttIsFirst RttReadyAtSleep Complete
 PROPERTIES T_OnceTCP T_OnceTLS T_NothingAfterReturn
 POSTCONDITION Post
